@@ -10,7 +10,7 @@ Import ListNotations.
 Local Open Scope R_scope.
 
 Definition proved_names : list string :=
-  ["floor"; "ceil"; "trunc"; "fix"; "sign"; "greater"; "greater_equal"; "less"; "less_equal"; "equal"; "not_equal"]%string.
+  ["floor"; "ceil"; "trunc"; "fix"; "rint"; "round"; "around"; "sign"; "greater"; "greater_equal"; "less"; "less_equal"; "equal"; "not_equal"]%string.
 Definition all_registered : bool := forallb (fun n => existsb (String.eqb n) gen_nograd) proved_names.
 
 Lemma proved_members_are_registered : forall n, In n proved_names -> In n gen_nograd.
@@ -27,6 +27,9 @@ Inductive model_of : string -> (R -> R) -> (R -> Prop) -> Prop :=
 | m_ceil : model_of "ceil" rceil (fun x => exists z, x = IZR z)
 | m_trunc : model_of "trunc" rtrunc (fun x => exists z, x = IZR z)
 | m_fix : model_of "fix" rtrunc (fun x => exists z, x = IZR z)
+| m_rint : model_of "rint" rrint half_integer
+| m_round : model_of "round" rrint half_integer
+| m_around : model_of "around" rrint half_integer
 | m_sign : model_of "sign" rsign (fun x => x = 0)
 | m_greater c : model_of "greater" (rgt c) (fun x => x = c)
 | m_greater_equal c : model_of "greater_equal" (rge c) (fun x => x = c)
@@ -45,7 +48,7 @@ Proof. intros H z E. apply H. now exists z. Qed.
 
 Lemma model_locally_const name f J x : model_of name f J -> ~ J x -> locally_const f x.
 Proof.
-  intros [ ] H; auto using rfloor_locally_const, rceil_locally_const, rtrunc_locally_const, not_jump_non_integer,
+  intros [ ] H; auto using rfloor_locally_const, rceil_locally_const, rtrunc_locally_const, rrint_locally_const, not_jump_non_integer,
     rsign_locally_const, rgt_locally_const, rge_locally_const, rlt_locally_const, rle_locally_const, req_locally_const,
     rneq_locally_const.
 Qed.
@@ -123,6 +126,35 @@ Proof.
   intros Hq Hm z E. assert (Hq' : 0 < IZR q) by (apply IZR_lt; exact Hq).
   assert (Ez : IZR p = IZR (z * q)) by (rewrite mult_IZR, <- E; field; lra).
   apply eq_IZR in Ez. unfold zis_int in Hm. apply Z.eqb_neq in Hm. apply Hm. subst p. apply Z.mod_mul. lia.
+Qed.
+
+Definition zrint (p q : Z) : Z :=
+  let a := (2 * p + q)%Z in let b := (2 * q)%Z in let n := (a / b)%Z in
+  if (a mod b =? 0)%Z then (if Z.even n then n else n - 1)%Z else n.
+
+Lemma rrint_Q p q : (0 < q)%Z -> rrint (IZR p / IZR q) = IZR (zrint p q).
+Proof.
+  intros Hq. assert (Hq' : 0 < IZR q) by (apply IZR_lt; exact Hq). assert (Hb : (0 < 2 * q)%Z) by lia.
+  assert (E : IZR p / IZR q + / 2 = IZR (2 * p + q) / IZR (2 * q)) by (rewrite plus_IZR, !mult_IZR; field; lra).
+  unfold rrint, zrint. rewrite E.
+  assert (EI : Int_part (IZR (2 * p + q) / IZR (2 * q)) = ((2 * p + q) / (2 * q))%Z).
+  { apply eq_IZR. exact (rfloor_Q (2 * p + q) (2 * q) Hb). }
+  rewrite EI. destruct (Z.eqb_spec ((2 * p + q) mod (2 * q)) 0) as [M|M].
+  - assert (Ed : IZR (2 * p + q) / IZR (2 * q) = IZR ((2 * p + q) / (2 * q))).
+    { pose proof (Z.div_mod (2 * p + q) (2 * q) ltac:(lia)) as D. rewrite M, Z.add_0_r in D.
+      rewrite D at 1. rewrite mult_IZR. assert (0 < IZR (2 * q)) by (apply IZR_lt; exact Hb). field; lra. }
+    destruct (Req_EM_T _ _) as [_|N]; [|tauto].
+    destruct (Z.even _); [reflexivity|]. now rewrite minus_IZR.
+  - destruct (Req_EM_T _ _) as [Y|_]; [|reflexivity].
+    exfalso. apply (non_integer_Q (2 * p + q) (2 * q) Hb) with (z := ((2 * p + q) / (2 * q))%Z); [|exact Y].
+    unfold zis_int. now apply Z.eqb_neq.
+Qed.
+
+Lemma not_half_integer_Q p q : (0 < q)%Z -> zis_int (2 * p + q) (2 * q) = false -> ~ half_integer (IZR p / IZR q).
+Proof.
+  intros Hq Hm [z Ez]. assert (Hq' : 0 < IZR q) by (apply IZR_lt; exact Hq).
+  assert (E : IZR p / IZR q + / 2 = IZR (2 * p + q) / IZR (2 * q)) by (rewrite plus_IZR, !mult_IZR; field; lra).
+  rewrite E in Ez. exact (non_integer_Q (2 * p + q) (2 * q) ltac:(lia) Hm z Ez).
 Qed.
 
 (* at a non-integer rational the derivative of x * floor x is the integer computed by zfloor *)
